@@ -26,7 +26,7 @@ func vpSetupPacket(i int) []byte {
 
 // vpEnding: how the client side ends after `good` well-formed packets.
 //   0 connection drops (read error)   1 CLOSE_CHANNEL   2 out-of-order packet (handshake again)
-//   3 unframeable bytes (length field 3)   4 unknown packet type then drop
+//   3 unframeable bytes (length field 3)   4 unknown packet type then drop   5 another CHANNEL_CREATE (other host)
 func vpScript(good, ending int) *vpTransport {
 	tr := &vpTransport{}
 	n := good
@@ -45,6 +45,8 @@ func vpScript(good, ending int) *vpTransport {
 			return vpPacket(1, []byte{1, 0, 0, 0, 0, 0})
 		case 3:
 			return []byte{0xA, 0, 0, 0, 3, 0, 0, 0, 1, 2}
+		case 5:
+			return vpPacket(8, []byte{1, 0, 0x3d, 0x0d, 3, 0, 2, 0, 'z', 0})
 		}
 		return vpPacket(0x77, []byte{})
 	}
@@ -66,13 +68,13 @@ func vpCheckReleased(t *Tunnel, trs []*vpTransport, label string) {
 
 //vp:property C11
 //vp:set good 6 8
-//vp:bounds websocket transport; 0..good well-formed packets (handshake, tunnel-create, tunnel-auth, channel-create, then DATA) followed by each of the five ways the client side can end: connection drop, CLOSE_CHANNEL, out-of-order packet, unframeable bytes, unknown packet type + drop; the backend stays quiet (never sends, never closes); dial succeeding or failing
+//vp:bounds websocket transport; 0..good well-formed packets (handshake, tunnel-create, tunnel-auth, channel-create, then DATA) followed by each of six ways the client side can end: connection drop, CLOSE_CHANNEL, out-of-order handshake, unframeable bytes, unknown packet type + drop, a further CHANNEL_CREATE for another host; the backend stays quiet (never sends, never closes); dial succeeding or failing
 //vp:assume goroutines are run to completion after the handler returns (no interleaving exploration); "bounded time" is reduced to "no goroutine of the tunnel is left parked forever"
 //vp:reach ended
 func VP_C11_ws() {
 	vpResetHandlers()
 	good := vpIntRange("good", 0, vpParam("good"))
-	ending := vpIntRange("ending", 0, 4)
+	ending := vpIntRange("ending", 0, 5)
 	tr := vpScript(good, ending)
 	vpNextTransports = []*vpTransport{tr}
 	g := &Gateway{}
@@ -94,7 +96,7 @@ func VP_C11_ws() {
 func VP_C11_legacy() {
 	vpResetHandlers()
 	good := vpIntRange("good", 0, vpParam("good"))
-	ending := vpIntRange("ending", 0, 4)
+	ending := vpIntRange("ending", 0, 5)
 	out := &vpTransport{}
 	in := vpScript(good, ending)
 	vpNextTransports = []*vpTransport{out, in}
